@@ -1386,6 +1386,25 @@ theorem token_routes :
       [("POST", "/sign"), ("POST", "/revoke"), ("POST", "/ssh/sign"), ("POST", "/ssh/renew"),
        ("POST", "/ssh/revoke"), ("POST", "/ssh/rekey"), ("POST", "/sign-ssh")] := by decide
 
+/-- the handler serving each operation, and the method constant of the operation -/
+def handlerOf : Op → String
+  | .sign => "Sign" | .sshSign => "SSHSign" | .sshRenew => "SSHRenew"
+  | .sshRekey => "SSHRekey" | .revoke => "Revoke" | .sshRevoke => "SSHRevoke"
+
+def methodConst : Op → String
+  | .sign => "SignMethod" | .sshSign => "SSHSignMethod" | .sshRenew => "SSHRenewMethod"
+  | .sshRekey => "SSHRekeyMethod" | .revoke => "RevokeMethod" | .sshRevoke => "SSHRevokeMethod"
+
+/-- **handler_method.** Each token handler authorizes with the method of its own operation first (the
+    SSH sign handler then also with `SignIdentityMethod`, which `Authorize` dispatches like `sign`), and
+    that method's `case` in `Authorize` is the one `dispatch_table` is about. -/
+theorem handler_method (op : Op) :
+    ((handlerMethods.find? (·.1 = handlerOf op)).map (·.2)) =
+      some (methodConst op :: (if op = .sshSign then ["SignIdentityMethod"] else [])) ∧
+    labelOf op = "case provisioner." ++ methodConst op ++
+      (if op = .sign then ", provisioner.SignIdentityMethod" else "") := by
+  cases op <;> decide
+
 /-! ### nothing is signed, stored or revoked without a successful Authorize -/
 
 def Ev.isEff : Ev → Bool
